@@ -12,9 +12,24 @@ CLAIMED = {
  'C03': dict(world='TABLE', tech='deterministic simulation: seeded histories of Handle/Remove/Clean/Prefix.Clean/Resource ops from several admin tasks, probed after every step against a route-table model and the reference resolver',
              text='After every administrative step Routes() is compared with the table model and a witness request per live pattern and per method must be served by the model\'s handler (winner among live candidates decided by the reference resolver\'s kind priority); removed pairs must be gone, removals must not change requests that went elsewhere, nothing may panic.',
              note='table model + reference resolver trusted; witnesses use simple values only', ref='§5 C03'),
+ 'C02': dict(world='TABLE', tech='deterministic simulation: registration order = seeded interleaving of 1-4 registrar tasks on an add-only router; every probed path compared with an order-independent reference resolver (set of admissible outcomes)',
+             text='The patterns of a world are partitioned over registrar tasks whose seeded interleaving is the registration order; afterwards generated paths (witnesses, values containing literal bytes, near misses, cross-overs that force backtracking) are resolved by the router and by a reference resolver that never builds a tree; the router must answer with an admissible (pattern, own parameter values) pair, and with 404 exactly when the resolver finds none.',
+             note='reference resolver (DESIGN §5-C02) trusted; regexp rules drawn from classes with a unique match that cannot swallow the following literal; this is the property where the simulator contributes only the order axis', ref='§5 C02'),
  'C04': dict(world='TABLE', tech='deterministic simulation: seeded registration/removal histories, Allow sets of OPTIONS/405/OPTIONS * and Node().Methods()/Routes() compared as sets with a method-set model after every step',
              text='After every step of a seeded history the Allow header of OPTIONS and 405 answers (built from the node captured by the builder, as README does), Route.Node().AllowHeader()/Methods(), Routes() and OPTIONS * are compared as sets with the method-set model.',
              note='method-set model trusted; Allow compared as a set, never as text', ref='§5 C04'),
+ 'C06': dict(world='CONC', tech='deterministic simulation of goroutine interleavings: statement-level yield points + simulated RWMutex under a seeded scheduler (random walk / PCT / lock-edge), Go race detector with hidden scheduler hand-offs, porcupine linearizability against sequential replicas, deadlock detection',
+             text='Writers (Handle/Remove/Clean on routes that split and re-merge the nodes of untouched routes) and readers (ServeHTTP, Routes, URL) run as real goroutines, one at a time, on a WithLock(true) router; the seeded scheduler switches at inserted statement boundaries and lock edges. Oracles: the real race detector (scheduler hand-offs hidden from it), deadlock, and porcupine: every recorded history must be linearizable with respect to a sequential replica of the same router.',
+             note='yield points at statement boundaries; race detector has a bounded per-word history; replica = the same code run sequentially, so purely sequential defects are not reported here', ref='§5 C06'),
+ 'C08': dict(world='IO+TABLE', tech='deterministic simulation: seeded handler write scripts on a simulated connection (GET vs HEAD differential on live header map, status, bytes reaching the connection) inside seeded add/remove histories of GET and other methods',
+             text='Every registered handler executes a seeded write script (header mutations, WriteHeader, Writes of several sizes incl. 0, Flush) on a simulated connection; after every step of the history GET and HEAD on every live pattern are compared (same handler, status, headers except Content-Length, no body bytes for HEAD, Content-Length = bytes written when the handler never sent the header), HEAD follows GET through all add/remove orders, OPTIONS stays while another method remains, reserved/unknown methods are rejected.',
+             note='scripts conform to the ResponseWriter contract (no WriteHeader after Write/Flush); write errors are not injected (a handler may legitimately react to them)', ref='§5 C08'),
+ 'C17': dict(world='TABLE', tech='deterministic simulation: rejected registrations injected as faults into seeded histories; full observable snapshot before/after every rejected Handle + table model',
+             text='Rejected Handle calls (duplicate pattern+method, reserved/unknown/duplicated method at any list position, documented syntax errors, pattern identical up to names to the only route) are woven into seeded histories; the full observable snapshot (Routes, every method on every witness with its Allow set, OPTIONS *) taken before the call must equal the one taken after it; must-reject calls must panic and valid calls must not.',
+             note='which calls must be rejected is decided from the documentation only (error text is never parsed); patterns whose syntax the documentation does not settle are not generated', ref='§5 C17'),
+ 'C18': dict(world='IO+TABLE', tech='deterministic simulation: TRACE requests inside seeded table histories with/without WithTrace; Trace helper on a simulated connection (wire snapshot at WriteHeader) fed by a short-read body stream',
+             text='With a TRACE component configured, TRACE to live, removed, never-registered, * and hostile paths must reach that component wrapped in exactly the Use stack, every Allow set / Routes() entry lists TRACE and Handle(…, TRACE) is rejected; without it TRACE is an ordinary method. The bundled helper is run on a simulated connection that snapshots the headers at WriteHeader, with the request body served in seeded short/zero reads: 200, Content-Type on the wire, escaped dump, body iff asked.',
+             note='simulated connection emulates net/http header commit semantics', ref='§5 C18'),
 }
 
 NOT_APPLICABLE = {
